@@ -1,6 +1,10 @@
 package proto
 
-import "github.com/go-faster/errors"
+import (
+	"strings"
+
+	"github.com/go-faster/errors"
+)
 
 // ColTuple is Tuple column.
 //
@@ -38,6 +42,8 @@ type ColNamed[T any] struct {
 
 func (c *ColNamed[T]) Infer(t ColumnType) error {
 	if v, ok := c.ColumnOf.(Inferable); ok {
+		// Element of named tuple is "name T".
+		t = ColumnType(strings.TrimPrefix(string(t), c.Name+" "))
 		if err := v.Infer(t); err != nil {
 			return errors.Wrap(err, "named")
 		}
@@ -107,14 +113,68 @@ func (c ColTuple) Prepare() error {
 }
 
 func (c ColTuple) Infer(t ColumnType) error {
-	for _, v := range c {
+	elems := tupleElems(t)
+	if len(elems) != len(c) {
+		// Nothing to infer from, type conflict is reported by caller.
+		return nil
+	}
+	for i, v := range c {
 		if s, ok := v.(Inferable); ok {
-			if err := s.Infer(t); err != nil {
+			elem := elems[i]
+			if _, named := v.(interface{ ColumnName() string }); !named {
+				elem = tupleElemType(elem)
+			}
+			if err := s.Infer(elem); err != nil {
 				return errors.Wrap(err, "infer")
 			}
 		}
 	}
 	return nil
+}
+
+// tupleElems returns elements of Tuple(T1, name T2, ...) type, splitting
+// only on top-level commas.
+func tupleElems(t ColumnType) []ColumnType {
+	var (
+		s      = string(t.Elem())
+		elems  []ColumnType
+		depth  int
+		quoted bool
+		start  int
+	)
+	if strings.TrimSpace(s) == "" {
+		return nil
+	}
+	for i := 0; i < len(s); i++ {
+		switch ch := s[i]; {
+		case quoted:
+			if ch == '\\' {
+				i++
+			} else if ch == '\'' {
+				quoted = false
+			}
+		case ch == '\'':
+			quoted = true
+		case ch == '(':
+			depth++
+		case ch == ')':
+			depth--
+		case ch == ',' && depth == 0:
+			elems = append(elems, ColumnType(strings.TrimSpace(s[start:i])))
+			start = i + 1
+		}
+	}
+	return append(elems, ColumnType(strings.TrimSpace(s[start:])))
+}
+
+// tupleElemType strips element name from "name T" element of named tuple.
+func tupleElemType(elem ColumnType) ColumnType {
+	s := string(elem)
+	idx := strings.IndexAny(s, " ('")
+	if idx <= 0 || s[idx] != ' ' {
+		return elem
+	}
+	return ColumnType(strings.TrimSpace(s[idx+1:]))
 }
 
 func (c ColTuple) EncodeState(b *Buffer) {
